@@ -54,6 +54,7 @@ type FT struct {
 	clauseV  map[ast.Node]*Var                     // type-switch clause variables
 	nres     int                                   // number of results of the repo call just evaluated (see evalArgs)
 	synth    map[ast.Expr]map[string]*ast.CallExpr // implicit method calls of fmt operands (trust.go)
+	putRoots RootSet                               // objects given to sync.Pool.Put (pool.go)
 }
 
 // deferredCall: a defer statement seen so far; its effects are emitted at
